@@ -4,7 +4,7 @@
 //! start nodes) the verdict V(x) is computed on the real parser and related to
 //! the verdicts of its prefixes and of all continuations x⧺y, |y| <= k.
 
-use mc::ifaces::Main;
+use mc::ifaces::{Lexi, Main};
 use mc::lex::{self, Visitor, SIGMA};
 use mc::pv::{self, call_eq, verdict, V};
 use mc::util::{hex, show, unhex, Args, Distinct, Groups, Outcome};
@@ -21,6 +21,15 @@ fn starts() -> Vec<(&'static str, &'static Node)> {
     let aa = a.child("A").expect("node A:A");
     let b = root.child("B").expect("node B");
     vec![("root", root), ("A", a), ("A:A", aa), ("B", b)]
+}
+
+/// start nodes on the Lexi tree (long / short forms, optional node SOURce)
+fn starts_lexi() -> Vec<(&'static str, &'static Node)> {
+    let root = Lexi.root_node();
+    let syst = root.child("SYST").expect("node SYST");
+    let volt = root.child("SOUR").and_then(|n| n.child("VOLT")).expect("node SOUR:VOLT");
+    let volt2 = root.child("VOLT").expect("node VOLT (optional SOURce omitted)");
+    vec![("lexi-root", root), ("lexi-SYST", syst), ("lexi-SOUR:VOLT", volt), ("lexi-VOLT", volt2)]
 }
 
 fn flag_of(v: &V, p: &[u8]) -> u8 {
@@ -111,8 +120,9 @@ impl W<'_> {
 
     fn refresh_full(&mut self, x: &[u8], last: usize) {
         for (si, (_, start)) in self.starts.clone().iter().enumerate() {
-            if last == 2 {
-                let p = &x[..x.len() - 1];
+            // byte prefixes that end inside the last (multi-byte) token
+            for cut in 1..last {
+                let p = &x[..x.len() - cut];
                 let v = verdict(self.root, start, p);
                 self.c.parse_calls += 1;
                 self.flags[si][p.len()] = flag_of(&v, p);
@@ -136,8 +146,9 @@ impl W<'_> {
         let k = self.kfor[ntok];
         for si in 0..self.starts.len() {
             let (sname, start) = self.starts[si];
-            if last == 2 {
-                let p = &x[..x.len() - 1];
+            // byte prefixes that end inside the last (multi-byte) token
+            for cut in 1..last {
+                let p = &x[..x.len() - cut];
                 let v = verdict(self.root, start, p);
                 self.c.parse_calls += 1;
                 self.flags[si][p.len()] = flag_of(&v, p);
@@ -189,7 +200,7 @@ impl W<'_> {
                         }
                     } else {
                         self.c.acc_exact += 1;
-                        for kk in 0..k {
+                        for kk in 0..k.min(self.conts.len()) {
                             for y in &self.conts[kk] {
                                 self.xy.clear();
                                 self.xy.extend_from_slice(x);
@@ -214,7 +225,7 @@ impl W<'_> {
                     self.c.rej += 1;
                     if x.last() == Some(&b'\n') {
                         self.c.rej_nl += 1;
-                        for kk in 0..k {
+                        for kk in 0..k.min(self.conts.len()) {
                             for y in &self.conts[kk] {
                                 self.xy.clear();
                                 self.xy.extend_from_slice(x);
@@ -290,8 +301,9 @@ fn replay(path: &str) -> ! {
     let sname = w["start"].as_str().unwrap();
     let x = unhex(w["x"].as_str().unwrap());
     let y = unhex(w["y"].as_str().unwrap_or(""));
-    let root = Main.root_node();
-    let start = starts().into_iter().find(|s| s.0 == sname).unwrap().1;
+    let lexi = sname.starts_with("lexi-");
+    let root = if lexi { Lexi.root_node() } else { Main.root_node() };
+    let start = starts().into_iter().chain(starts_lexi()).find(|s| s.0 == sname).unwrap().1;
     let mut xy = x.clone();
     xy.extend_from_slice(&y);
     let mut bad = [false; 2];
@@ -382,6 +394,7 @@ fn main() {
     };
     let conts_main = build_conts(SIGMA);
     let conts_alt = build_conts(lex::SIGMA_ALT);
+    let conts_lexeme: Vec<Vec<Vec<u8>>> = build_conts(lex::SIGMA_LEXEME).into_iter().take(2).collect();
     let root = Main.root_node();
     let st = starts();
     let kfor2 = kfor.clone();
@@ -389,21 +402,26 @@ fn main() {
     // shorter bound (they put the enumerated tokens at parameter positions 2.., after a ';' ...)
     // (alphabet, fixed context, max tokens); the second alphabet holds the other representative
     // of every byte class and is swept one token shorter
-    type Ctx<'a> = (&'static [&'static [u8]], &'a Vec<Vec<Vec<u8>>>, &'static [u8], usize);
+    type Ctx<'a> = (&'static [&'static [u8]], &'a Vec<Vec<Vec<u8>>>, &'static [u8], usize, bool);
     let contexts: Vec<Ctx> = vec![
-        (SIGMA, &conts_main, b"", lx),
-        (SIGMA, &conts_main, b"B 1,", lx - 1),
-        (SIGMA, &conts_main, b"B 'x' ,", lx - 2),
-        (SIGMA, &conts_main, b"A:B;B ", lx - 1),
-        (SIGMA, &conts_main, b"B #11,,", lx - 2),
-        (lex::SIGMA_ALT, &conts_alt, b"", lx - 1),
-        (lex::SIGMA_ALT, &conts_alt, b"b 7,", lx - 2),
+        (SIGMA, &conts_main, b"", lx, false),
+        (SIGMA, &conts_main, b"B 1,", lx - 1, false),
+        (SIGMA, &conts_main, b"B 'x' ,", lx - 2, false),
+        (SIGMA, &conts_main, b"A:B;B ", lx - 1, false),
+        (SIGMA, &conts_main, b"B #11,,", lx - 2, false),
+        (lex::SIGMA_ALT, &conts_alt, b"", lx - 1, false),
+        (lex::SIGMA_ALT, &conts_alt, b"b 7,", lx - 2, false),
+        // lexeme alphabet on the tree with long / short forms and an optional node
+        (lex::SIGMA_LEXEME, &conts_lexeme, b"", lx - 1, true),
     ];
     let mut out = Outcome::new("C12");
     let mut c = Counts::default();
     let mut distinct = Distinct::default();
     let mut expected_cases = 0u64;
-    for (sigma, conts, pre, plx) in &contexts {
+    let st_lexi = starts_lexi();
+    let root_lexi = Lexi.root_node();
+    for (sigma, conts, pre, plx, lexi) in &contexts {
+        let (root, st) = if *lexi { (root_lexi, &st_lexi) } else { (root, &st) };
         let plx = *plx;
         let sigma: &'static [&'static [u8]] = sigma;
         let conts: &Vec<Vec<Vec<u8>>> = conts;
@@ -433,8 +451,14 @@ fn main() {
             30,
             |p, k| {
                 let x = lex::case_of(sigma, plx, p, k);
-                println!("HANG context=\"{}\" partition={p} case={k} x=\"{}\"", show(pre), show(&x));
-                std::process::exit(3);
+                let mut full = pre.to_vec();
+                full.extend_from_slice(&x);
+                let f2 = full.clone();
+                let starts2: Vec<&'static Node> = st.iter().map(|s| s.1).collect();
+                if mc::par::confirm_hang(move || { for s in starts2 { let _ = verdict(root, s, &f2); } }, 30) {
+                    println!("HANG engine=parse x=\"{}\" (no progress for 30 s, and 30 s when parsed alone)", show(&full));
+                    std::process::exit(3);
+                }
             },
         );
         expected_cases += lex::count_upto(sigma.len(), plx) * st.len() as u64;
@@ -474,7 +498,8 @@ fn main() {
         "bounds",
         json!({"alphabet": lex::sigma_json(), "alphabet_size": SIGMA.len(), "max_tokens_x": lx,
                "second_alphabet": lex::sigma_alt_json(),
-               "contexts": contexts.iter().map(|(sg, _, p, l)| json!({"alphabet": if sg.len() == SIGMA.len() { "first" } else { "second" }, "fixed_prefix": show(p), "max_tokens_after_it": l})).collect::<Vec<_>>(),
+               "contexts": contexts.iter().map(|(sg, _, p, l, lexi)| json!({"alphabet": if *lexi { "lexemes (Lexi tree)" } else if sg.len() == SIGMA.len() { "first" } else { "second" }, "fixed_prefix": show(p), "max_tokens_after_it": l})).collect::<Vec<_>>(),
+               "lexeme_alphabet": lex::sigma_lexeme_json(),
                "continuation_tokens_by_len_x": kfor, "start_nodes": st.iter().map(|s| s.0).collect::<Vec<_>>(),
                "tree": "mc::ifaces::Main (macro-generated)"}),
     );
